@@ -66,6 +66,8 @@ pub static INITIAL_TABLETS: std::sync::atomic::AtomicI32 = std::sync::atomic::At
 /// and what is added to the client's source port before the shard of a shard-aware-port connection is derived from it
 /// (0 = faithful; k > 0 emulates a NAT rewriting source ports: the node binds the connection to another shard than requested).
 pub static SHARD_SKEW: std::sync::atomic::AtomicU16 = std::sync::atomic::AtomicU16::new(0);
+/// system-table answers: between two pages of rows an EMPTY page that still announces more pages is inserted
+pub static SYS_EMPTY_PAGES: std::sync::atomic::AtomicBool = std::sync::atomic::AtomicBool::new(false);
 /// index of a node that currently accepts no NEW connections (they are closed at once; established ones live on), or -1
 pub static REFUSE_NODE: std::sync::atomic::AtomicI32 = std::sync::atomic::AtomicI32::new(-1);
 
